@@ -67,12 +67,21 @@ def run_C01(ctx):
     ref_run(ctx, "diffref", ["diffref", "--n", n_cases(ctx, 700, 60000)],
             "artela-evm vm vs go-ethereum v1.12.0 core/vm on generated programs (results, post-state root, logs, refund, self-destructs, debug events)",
             nontrivial=lambda c: c.get("steps", 0) >= 5)
+    execref_run(ctx)
+
+
+def execref_run(ctx, quick=600, thorough=30000):
+    corr_run(ctx, "execref", ["execref", "--n", n_cases(ctx, quick, thorough)],
+             "Model/Exec.v frame logic with the Artela additions OFF (artela = false; recorded-script instance) vs go-ethereum v1.12.0's own EVM.Call/CallCode/DelegateCall/"
+             "StaticCall/Create/Create2 on generated standard programs: results, gas, complete debug event stream, world state (the reference side of the refinement theorem additions_invisible)",
+             nontrivial=lambda c: c.get("frames", 0) >= 2)
 
 
 def run_C02(ctx):
     ref_run(ctx, "diffref", ["diffref", "--mode", "gas", "--n", n_cases(ctx, 800, 40000)],
             "per-step gas/cost stream, frame gas hand-over, refund and leftover gas vs go-ethereum v1.12.0, re-run at gas limits one below / on / one above intermediate gas values",
             nontrivial=lambda c: c.get("steps", 0) >= 3)
+    execref_run(ctx, 400, 20000)
 
 
 def _exec_run_late(ctx, prefix, mask, quick, thorough):
@@ -157,6 +166,7 @@ def run_C18(ctx):
             "paired tracers on both implementations: struct logger (6 configs), access-list, prestate (+diff mode), 4byte, call (only-top-call, with-log), flat call (parity errors, include precompiles), mux, noop; GetResult compared",
             nontrivial=lambda c: c.get("output_bytes", 0) > 2, oracle_prefix="C18")
     exec_run(ctx, "C18", 2, quick=500, thorough=30000)
+    execref_run(ctx, 400, 20000)
 
 
 def run_C19(ctx):
@@ -229,7 +239,8 @@ PROPS = {
                       "tables the live interpreters select for Frontier..Shanghai and for each activatable EIP; Coq theorems (vm_compute over this finite data, bound = the listed declarations and 256 x forks) state that every "
                       "declaration is identical to upstream's or is one of the 184 reviewed Artela modifications/additions with its reviewed digest, that every table entry outside the journal bytes equals upstream's, and that "
                       "the precompile sets are upstream's plus 0x64-0x66 from Berlin. The frame logic Artela changed (Call/CallCode/DelegateCall/StaticCall/create + the interpreter loop skeleton) is modelled in Coq (Model/Exec.v) and PROVED (Proofs/Exec_refine.v, additions_invisible) "
-                      "to compute, with nothing bound and for every standard program, entry point, call tree, gas and depth, exactly the results, world state and debug events of the same logic with the Artela additions switched off. "
+                      "to compute, with nothing bound and for every standard program, entry point, call tree, gas and depth, exactly the results, world state and debug events of the same logic with the Artela additions switched off; "
+                      "that switched-off model is itself run against go-ethereum v1.12.0's own entry points (recorded scripts from the reference implementation, run `execref`). "
                       "Behavioural equality is validated, and a failing input searched, by running generated programs (valid grammar-based + malformed) through all six entry points on both implementations.",
         "level_note": COMMON_NOTE + REF_NOTE,
         "rule": "programs for 4 mutually calling contracts from a snippet grammar (arithmetic, memory, storage, logs, jumps, loops, all call kinds to contracts/EOA/empty/precompiles 1-9 with varied gas and value, CREATE/CREATE2, "
